@@ -336,6 +336,20 @@ class Prop:
     def features(self, case, impl_obs): return []            # coverage features for the histogram
     def render(self, case): return case                      # human readable form for samples/replays
 
+def saved_corpus(pid):
+    """shrunk inputs of past failures (kept from the trials of seeded changes and from repaired defects): they run first on every
+    run, whatever the seed; on the unchanged tree every one of them is an input on which the property holds"""
+    d = os.path.join(VERIF, 'harness', 'corpus', pid)
+    out = []
+    if os.path.isdir(d):
+        for f in sorted(os.listdir(d)):
+            if f.endswith('.json'):
+                try:
+                    out.append(json.load(open(os.path.join(d, f)))['case'])
+                except Exception:
+                    pass
+    return out
+
 def case_digest(case):
     return hashlib.sha1(json.dumps(case, sort_keys=True, default=str).encode()).hexdigest()[:16]
 
@@ -426,8 +440,13 @@ def run_check(prop, tier, seed, replay=None):
         payload = json.load(open(replay))
         cases = [payload['case']] if 'case' in payload else []
     else:
-        cases = list(prop.corpus()) + list(prop.gen_cases(rng, n, tier))
+        saved = saved_corpus(pid)
+        cases = list(prop.corpus()) + saved + list(prop.gen_cases(rng, n, tier))
     results = evaluate_cases(prop, cases)
+    if not replay:
+        # a kept input that the harness can no longer run (its family changed shape since it was kept) is dropped, not an error
+        old_ids = {id(c) for c in saved}
+        results = [r for r in results if not (r.get('harness_error') and id(r['case']) in old_ids)]
     known = [k for k in load_known() if k['property'] == pid]
     harness_errors = [r for r in results if r.get('harness_error')]
     disagreements = [r for r in results if r['disagree']]
